@@ -31,6 +31,10 @@ TYPES = ["bool", "int", "object", "str"]
 PYTYPE = {"bool": bool, "int": int, "object": object, "str": str}
 
 KNOWN_TEXT = {
+    "C07-classmethod-override-unchecked": "an override of a classmethod by a classmethod is never reported (incompatible_override), whatever the two signatures: "
+    "class A: @classmethod def m(cls, c, f) / class C(A): @classmethod def m(cls, d, b) is accepted, A.m(c=1, f=2) binds, C.m(c=1, f=2) raises TypeError",
+    "C07-staticmethod-override-first-param": "staticmethod overrides are compared after bind_self strips the FIRST parameter of both functions (it is not a self): "
+    "class A: @staticmethod def m(**f) / class C(A): @staticmethod def m(e) is accepted, A.m() binds, C.m() raises TypeError",
     "C07-double-fill": "a positional-or-keyword parameter of the accepted callable can be filled positionally and again by keyword by a call the expected signature binds: "
     "(a, /, **b) <- (a, **b) with f(1, a=2); (a, /, *, b) <- (b) and (*a, b) <- (b, *a) with f(1, b=2); (x, /, n) <- (n, *a, **k) with f(1, n=2)",
 }
@@ -265,6 +269,239 @@ def find_variance_violation(e, te, re_, a, ta, ra):
 # ---------------------------------------------------------------------------
 
 
+
+# ---------------------------------------------------------------------------
+# phase 3: further entry points
+
+
+def run_protocols(pairs):
+    """(e, a) untyped.  Protocol P with method m(self, <e>); class Impl with m(self, <a>);
+    `use(Impl())` for `def use(p: P)`.  True = no incompatible_argument reported."""
+    import contextlib
+    import io
+
+    from pyanalyze.error_code import ErrorCode
+    from pyanalyze.test_name_check_visitor import TestNameCheckVisitorBase
+
+    def mh(sig):
+        h = B.header(sig).replace("('d', '", "('d_', '")
+        return "self" + (", " + h if h else "")
+
+    lines = ["from typing import Protocol"]
+    for i, (e, a) in enumerate(pairs):
+        lines += [f"class P{i}(Protocol):", f"    def m({mh(e)}): ..."]
+        if i % 3 == 1:  # the method is inherited from a parent class
+            lines += [f"class IB{i}:", f"    def m({mh(a)}): pass", f"class I{i}(IB{i}): pass"]
+        elif i % 3 == 2:  # ... from a grandparent, and the protocol itself extends another protocol
+            lines += [f"class IG{i}:", f"    def m({mh(a)}): pass", f"class IB{i}(IG{i}): pass", f"class I{i}(IB{i}): pass"]
+        else:
+            lines += [f"class I{i}:", f"    def m({mh(a)}): pass"]
+        lines += [f"def use{i}(p: P{i}): pass"]
+    lines.append("def run():")
+    call_line = {}
+    for i in range(len(pairs)):
+        lines.append(f"    use{i}(I{i}())")
+        call_line[len(lines)] = i
+    buf = io.StringIO()
+    with contextlib.redirect_stderr(buf), contextlib.redirect_stdout(buf):
+        errs = TestNameCheckVisitorBase()._run_str("\n".join(lines) + "\n", fail_after_first=False)
+    verdict = [True] * len(pairs)
+    other = {}
+    for er in errs:
+        i = call_line.get(er["lineno"])
+        if i is not None and er["code"] is ErrorCode.incompatible_argument:
+            verdict[i] = False
+        elif er["code"].name != "method_first_arg":
+            other[er["code"].name] = other.get(er["code"].name, 0) + 1
+    return verdict, other
+
+
+def run_callable_annotations(items):
+    """items: (n or None, a).  `def use(cb: Callable[[int]*n, object])` (None: Callable[..., object]);
+    `use(g)` with g = def g(<a>).  True = no incompatible_argument."""
+    import contextlib
+    import io
+
+    from pyanalyze.error_code import ErrorCode
+    from pyanalyze.test_name_check_visitor import TestNameCheckVisitorBase
+
+    lines = ["from typing import Callable"]
+    for i, (n, a) in enumerate(items):
+        ann = "Callable[..., object]" if n is None else "Callable[[" + ", ".join(["int"] * n) + "], object]"
+        lines += [f"def g{i}({B.header(a).replace(chr(39) + 'd' + chr(39) + ', ', chr(39) + 'd_' + chr(39) + ', ')}): pass", f"def use{i}(cb: {ann}): pass"]
+    lines.append("def run():")
+    call_line = {}
+    for i in range(len(items)):
+        lines.append(f"    use{i}(g{i})")
+        call_line[len(lines)] = i
+    buf = io.StringIO()
+    with contextlib.redirect_stderr(buf), contextlib.redirect_stdout(buf):
+        errs = TestNameCheckVisitorBase()._run_str("\n".join(lines) + "\n", fail_after_first=False)
+    verdict = [True] * len(items)
+    other = {}
+    for er in errs:
+        i = call_line.get(er["lineno"])
+        if i is not None and er["code"] is ErrorCode.incompatible_argument:
+            verdict[i] = False
+        else:
+            other[er["code"].name] = other.get(er["code"].name, 0) + 1
+    return verdict, other
+
+
+UNNAMED = ["p0", "p1", "p2", "p3"]
+for _i, _n in enumerate(UNNAMED):
+    B.CODE.setdefault(_n, 9 + _i)
+    B.UNCODE.setdefault(9 + _i, _n)
+
+
+def callable_expected_sig(n):
+    """the model's reading of Callable[[T1..Tn], R]: n unnamed positional-only parameters"""
+    return [[UNNAMED[i], PO, 0] for i in range(n)]
+
+
+def impl_callable_annotation(n, fa):
+    """CallableValue built from the runtime annotation -> accepts KnownValue(fa)?"""
+    from typing import Callable
+
+    from pyanalyze.annotations import type_from_runtime
+    from pyanalyze.value import CanAssignError
+
+    I = B._impl()
+    ann = Callable[..., object] if n is None else Callable[[int] * n, object]
+    cv = type_from_runtime(ann)
+    return not isinstance(cv.can_assign(I["V"].KnownValue(fa), I["ck"]), CanAssignError)
+
+
+def impl_overloads(es, as_):
+    I = B._impl()
+    S = I["S"]
+    from pyanalyze.value import CanAssignError
+
+    def mk(sigs):
+        objs = [B.impl_signature(s) for s in sigs]
+        return objs[0] if len(objs) == 1 else S.OverloadedSignature(objs)
+
+    return not isinstance(mk(es).can_assign(mk(as_), I["ck"]), CanAssignError)
+
+
+# ---------------------------------------------------------------------------
+# class hierarchies: the override must be compatible with EVERY definition in the MRO
+
+HIER_SHAPES = ["single", "two_bases", "second_base_only", "diamond", "grandparent", "parent_and_grandparent", "classmethod", "staticmethod"]
+
+
+def _mh(sig, first="self"):
+    h = B.header(sig).replace("('d', '", "('d_', '")
+    if first is None:
+        return h
+    return first + (", " + h if h else "")
+
+
+def hierarchy_source(shape, i, bases_sigs, a):
+    """-> (lines, index of the line (0-based, within lines) of the overriding def)"""
+    n = f"{i}"
+    L = []
+
+    def cls(name, parents, sig, deco=None, first="self"):
+        L.append(f"class {name}({', '.join(parents)}):" if parents else f"class {name}:")
+        if sig is None:
+            L.append("    pass")
+            return None
+        if deco:
+            L.append(f"    @{deco}")
+        L.append(f"    def m({_mh(sig, first)}): return locals()")
+        return len(L) - 1
+
+    if shape == "single":
+        cls(f"A{n}", [], bases_sigs[0])
+        at = cls(f"C{n}", [f"A{n}"], a)
+    elif shape == "two_bases":
+        cls(f"A{n}", [], bases_sigs[0])
+        cls(f"B{n}", [], bases_sigs[1])
+        at = cls(f"C{n}", [f"A{n}", f"B{n}"], a)
+    elif shape == "second_base_only":
+        cls(f"A{n}", [], None)
+        cls(f"B{n}", [], bases_sigs[0])
+        at = cls(f"C{n}", [f"A{n}", f"B{n}"], a)
+    elif shape == "diamond":
+        cls(f"T{n}", [], bases_sigs[0])
+        cls(f"A{n}", [f"T{n}"], bases_sigs[1])
+        cls(f"B{n}", [f"T{n}"], bases_sigs[2])
+        at = cls(f"C{n}", [f"A{n}", f"B{n}"], a)
+    elif shape == "grandparent":
+        cls(f"T{n}", [], bases_sigs[0])
+        cls(f"A{n}", [f"T{n}"], None)
+        at = cls(f"C{n}", [f"A{n}"], a)
+    elif shape == "parent_and_grandparent":
+        cls(f"T{n}", [], bases_sigs[0])
+        cls(f"A{n}", [f"T{n}"], bases_sigs[1])
+        at = cls(f"C{n}", [f"A{n}"], a)
+    elif shape == "classmethod":
+        cls(f"A{n}", [], bases_sigs[0], "classmethod", "cls")
+        at = cls(f"C{n}", [f"A{n}"], a, "classmethod", "cls")
+    elif shape == "staticmethod":
+        cls(f"A{n}", [], bases_sigs[0], "staticmethod", None)
+        at = cls(f"C{n}", [f"A{n}"], a, "staticmethod", None)
+    else:
+        raise ValueError(shape)
+    return L, at
+
+
+def n_bases(shape):
+    return {"two_bases": 2, "diamond": 3, "parent_and_grandparent": 2}.get(shape, 1)
+
+
+def gen_hierarchies(rng, n):
+    out = []
+    for j in range(n):
+        shape = HIER_SHAPES[j % len(HIER_SHAPES)]
+        e0 = B.random_sig(rng, 3)
+        if shape == "staticmethod" and not e0:
+            e0 = [["a", POK, 0]]
+        bases = [e0]
+        for _ in range(n_bases(shape) - 1):
+            bases.append((mutate_sig(rng, e0) if rng.random() < 0.8 else None) or B.random_sig(rng, 3))
+        src = rng.choice(bases)
+        a = (mutate_sig(rng, src) if rng.random() < 0.75 else None) or src
+        out.append((shape, bases, a))
+    return out
+
+
+def run_hierarchies(cases, batch=100):
+    """-> per case (accepted by pyanalyze: no incompatible_override on the overriding def)"""
+    import contextlib
+    import io
+
+    from pyanalyze.error_code import ErrorCode
+    from pyanalyze.test_name_check_visitor import TestNameCheckVisitorBase
+
+    verdicts = []
+    other = {}
+    for b0 in range(0, len(cases), batch):
+        chunk = cases[b0 : b0 + batch]
+        lines = []
+        def_line = {}
+        for i, (shape, bases, a) in enumerate(chunk):
+            L, at = hierarchy_source(shape, i, bases, a)
+            def_line[len(lines) + at + 1] = i
+            # a decorator line precedes the def: diagnostics may be reported on either line
+            def_line.setdefault(len(lines) + at, i) if shape in ("classmethod", "staticmethod") else None
+            lines += L
+        buf = io.StringIO()
+        with contextlib.redirect_stderr(buf), contextlib.redirect_stdout(buf):
+            errs = TestNameCheckVisitorBase()._run_str("\n".join(lines) + "\n", fail_after_first=False)
+        v = [True] * len(chunk)
+        for er in errs:
+            i = def_line.get(er["lineno"])
+            if i is not None and er["code"] is ErrorCode.incompatible_override:
+                v[i] = False
+            elif er["code"].name not in ("method_first_arg", "incompatible_override"):
+                # incompatible_override on other lines = intermediate classes of the hierarchy overriding their own bases
+                other[er["code"].name] = other.get(er["code"].name, 0) + 1
+        verdicts += v
+    return verdicts, other
+
+
 def enc_pair(e, a):
     return "C" + B.enc_sig(e) + "|" + B.enc_sig(a)
 
@@ -334,11 +571,14 @@ def run(tier: str, replay: str | None = None):
 
     # ---- cases
     pairs = []
+    replay_hier = None
     typed = []  # (e, te, re, a, ta, ra)
     if replay:
         r = json.loads(Path(replay).read_text())
         c = r["input"]
-        if "te" in c:
+        if "hierarchy" in c:
+            replay_hier = [(c["hierarchy"], c["bases"], c["a"])]
+        elif "te" in c:
             typed.append((c["e"], c["te"], c["re"], c["a"], c["ta"], c["ra"]))
         else:
             pairs.append((c["e"], c["a"]))
@@ -452,30 +692,155 @@ def run(tier: str, replay: str | None = None):
             if v is not None:
                 failing.append((payload, "accepted", "variance violated under the membership model: " + json.dumps(v)))
 
-    # ---- entry points and overrides on a sample
+    # ---- entry points: CallableValue / KnownValue(function) on EVERY pair; overrides and protocols on samples
     ep_bad, ov_bad, ov_other = [], [], {}
-    n_ep = n_ov = n_ov_rej = 0
+    pr_bad, pr_other = [], {}
+    n_ep = n_ov = n_ov_rej = n_pr = n_pr_rej = 0
+    direct_cache = {}
     if pairs:
-        sample = [pairs[i] for i in sorted(rng.sample(range(len(pairs)), min(len(pairs), 600 if not thorough else 4000)))]
-        for e, a in sample:
+        for e, a in pairs:
             fe, fa = B.real_function(e), B.real_function(a)
             direct = impl_accepts(B.impl_signature(e), B.impl_signature(a))
+            direct_cache[(json.dumps(e), json.dumps(a))] = direct
             r1, r2 = impl_entry_points(fe, fa)
             n_ep += 1
             if r1 != direct or r2 != direct:
                 ep_bad.append({"input": {"e": e, "a": a, "text": pair_text(e, a)}, "Signature.can_assign": direct, "CallableValue.can_assign": r1, "KnownValue.can_assign": r2})
-        osample = sample[: 300 if not thorough else 1500]
-        for k in range(0, len(osample), 100):
-            chunk = osample[k : k + 100]
+        sample = [pairs[i] for i in sorted(rng.sample(range(len(pairs)), min(len(pairs), 1200 if not thorough else 6000)))]
+        for k in range(0, len(sample), 150):
+            chunk = sample[k : k + 150]
             vs, other = run_overrides(chunk)
             for key, val in other.items():
                 ov_other[key] = ov_other.get(key, 0) + val
             for (e, a), ok in zip(chunk, vs):
                 n_ov += 1
                 n_ov_rej += int(not ok)
-                direct = impl_accepts(B.impl_signature(e), B.impl_signature(a))
+                direct = direct_cache[(json.dumps(e), json.dumps(a))]
                 if ok != direct:
                     ov_bad.append({"input": {"e": e, "a": a, "text": pair_text(e, a)}, "Signature.can_assign": direct, "override_check_accepts": ok})
+        psample = sample[: 600 if not thorough else 3000]
+        for k in range(0, len(psample), 150):
+            chunk = psample[k : k + 150]
+            vs, other = run_protocols(chunk)
+            for key, val in other.items():
+                pr_other[key] = pr_other.get(key, 0) + val
+            for (e, a), ok in zip(chunk, vs):
+                n_pr += 1
+                n_pr_rej += int(not ok)
+                direct = direct_cache[(json.dumps(e), json.dumps(a))]
+                if ok != direct:
+                    pr_bad.append({"input": {"e": e, "a": a, "text": pair_text(e, a)}, "Signature.can_assign": direct, "protocol_check_accepts": ok})
+
+    # ---- Callable[[T1..Tn], R] and Callable[..., R] as the expected type
+    ca_items, ca_corr, ca_e2e_bad = [], [], []
+    n_ca = n_ca_acc = n_ellipsis = n_ca_e2e = 0
+    ca_other = {}
+    if pairs and not replay:
+        ca_items = [(rng.choice([0, 1, 1, 2, 2, 3]), a) for _, a in pairs[:: 2 if not thorough else 1]]
+        ca_model = lib.ocaml_run(exe, [enc_pair(callable_expected_sig(n), a) for n, a in ca_items]) if exe is not None else [None] * len(ca_items)
+        for (n, a), ml in zip(ca_items, ca_model):
+            fa = B.real_function(a)
+            acc = impl_callable_annotation(n, fa)
+            n_ca += 1
+            n_ca_acc += int(acc)
+            payload = {"e": callable_expected_sig(n), "a": a, "text": f"Callable[[{', '.join(['int'] * n)}], object]  <-  def g({B.header(a)})"}
+            if ml is not None:
+                mk, _, guard = parse_model(ml)
+                if mk != acc:
+                    ca_corr.append({"input": payload, "model": mk, "impl": acc})
+            if acc and not B.cpython_binds(fa, n, []):
+                failing.append((payload, f"accepted for Callable[[{n} parameters], ...]", f"g raises TypeError when called with {n} positional arguments"))
+            if not impl_callable_annotation(None, fa):
+                failing.append(({"e": [], "a": a, "text": f"Callable[..., object]  <-  def g({B.header(a)})"}, "rejected", "Callable[..., R] is compatible with every callable"))
+            n_ellipsis += 1
+        esample = ca_items[: 300 if not thorough else 1500] + [(None, a) for _, a in ca_items[:60]]
+        for k in range(0, len(esample), 150):
+            chunk = esample[k : k + 150]
+            vs, other = run_callable_annotations(chunk)
+            for key, val in other.items():
+                ca_other[key] = ca_other.get(key, 0) + val
+            for (n, a), ok in zip(chunk, vs):
+                n_ca_e2e += 1
+                direct = impl_callable_annotation(n, B.real_function(a))
+                if ok != direct:
+                    ca_e2e_bad.append({"input": {"n": n, "a": a, "text": f"use(g) for def g({B.header(a)})"}, "type_from_runtime route": direct, "module accepts": ok})
+
+    # ---- overloads on either side
+    ov2_corr = []
+    n_ov2 = n_ov2_acc = 0
+    if pairs and not replay and exe is not None:
+        groups = []
+        for j in range(1500 if not thorough else 12000):
+            e0 = B.random_sig(rng, 3)
+            es = [e0] + ([mutate_sig(rng, e0) or e0] if rng.random() < 0.5 else [])
+            as_ = [(mutate_sig(rng, e0) if rng.random() < 0.8 else B.random_sig(rng, 3)) or e0 for _ in range(rng.choice([1, 2, 2]))]
+            groups.append((es, as_))
+        lines = [enc_pair(e, a) for es, as_ in groups for e in es for a in as_]
+        outs = iter(lib.ocaml_run(exe, lines))
+        for es, as_ in groups:
+            table = {(i, j): parse_model(next(outs))[0] for i in range(len(es)) for j in range(len(as_))}
+            mk = all(any(table[(i, j)] for j in range(len(as_))) for i in range(len(es)))
+            acc = impl_overloads(es, as_)
+            n_ov2 += 1
+            n_ov2_acc += int(acc)
+            if mk != acc:
+                ov2_corr.append({"input": {"es": es, "as": as_, "text": " | ".join(B.header(x) for x in es) + "  <-  " + " | ".join(B.header(x) for x in as_)}, "model": mk, "impl": acc})
+
+    # ---- class hierarchies: the override against every definition in the MRO
+    hier_bad, hier_corr = [], []
+    hier_hist = {}
+    hier_other = {}
+    n_hier = 0
+    if (pairs or replay_hier) and exe is not None:
+        hcases = replay_hier or gen_hierarchies(rng, 800 if not thorough else 5000)
+        hv, hier_other = run_hierarchies(hcases)
+        hlines = [enc_pair(e, a) for shape, bases, a in hcases for e in bases]
+        houts = iter(lib.ocaml_run(exe, hlines))
+        for (shape, bases, a), acc in zip(hcases, hv):
+            n_hier += 1
+            h = hier_hist.setdefault(shape, {"cases": 0, "accepted": 0})
+            h["cases"] += 1
+            h["accepted"] += int(acc)
+            ms = [parse_model(next(houts)) for _ in bases]
+            directs = [impl_accepts(B.impl_signature(e), B.impl_signature(a)) for e in bases]
+            src, _ = hierarchy_source(shape, 0, bases, a)
+            payload = {"hierarchy": shape, "bases": bases, "a": a, "text": " / ".join(x.strip() for x in src if x.strip().startswith(("class", "def", "@")))}
+            special = shape in ("classmethod", "staticmethod")
+            if special:
+                # what the known mechanism predicts: classmethod overrides are never reported; staticmethod
+                # overrides are compared after bind_self stripped the first parameter of both sides
+                if shape == "classmethod":
+                    predicted = True
+                else:
+                    I = B._impl()
+                    from pyanalyze.value import CanAssignError as _CAE
+
+                    bb = B.impl_signature(bases[0]).bind_self(ctx=I["ck"])
+                    cb = B.impl_signature(a).bind_self(ctx=I["ck"])
+                    predicted = True if bb is None else False if cb is None else not isinstance(bb.can_assign(cb, I["ck"]), _CAE)
+                if acc != predicted:
+                    hier_corr.append({"input": payload, "override_check_accepts": acc, "predicted by the known mechanism": predicted})
+            elif acc != all(directs):
+                hier_corr.append({"input": payload, "override_check_accepts": acc, "Signature.can_assign per base": directs})
+            if acc:
+                fa = B.real_function(a)
+                for e, m in zip(bases, ms):
+                    bad = find_unsound_call(B.real_function(e), fa, e, a)
+                    if bad is not None:
+                        if special and not (m[0] and not m[2]):
+                            # Signature.can_assign itself would have rejected (or it is the double-fill class):
+                            # the unsound acceptance is the override route's, under the kind's guard
+                            fid = "C07-classmethod-override-unchecked" if shape == "classmethod" else "C07-staticmethod-override-first-param"
+                            if m[0] and m[2]:
+                                fid = "C07-double-fill"
+                            hist["known"][fid] = hist["known"].get(fid, 0) + 1
+                            rep.known(fid, KNOWN_TEXT[fid])
+                        elif m[0] and m[2]:
+                            hist["known"]["C07-double-fill"] = hist["known"].get("C07-double-fill", 0) + 1
+                            rep.known("C07-double-fill", KNOWN_TEXT["C07-double-fill"])
+                        else:
+                            failing.append((payload, f"override accepted (no incompatible_override); call with {bad[0]} positionals and keywords {bad[1]}", f"the base definition def m({B.header(e)}) binds the call, the override raises TypeError"))
+                        break
 
     # ---- verdicts
     for payload, obs, exp in failing[:10]:
@@ -489,6 +854,16 @@ def run(tier: str, replay: str | None = None):
         rep.violation({"kind": "broken-correspondence", "correspondence": "Signature.can_assign vs CallableValue.can_assign / KnownValue(function).can_assign", **ep_bad[0]}, no_failing_input=True)
     if ov_bad and not found:
         rep.violation({"kind": "broken-correspondence", "correspondence": "Signature.can_assign vs override check (incompatible_override)", **ov_bad[0]}, no_failing_input=True)
+    if pr_bad and not found:
+        rep.violation({"kind": "broken-correspondence", "correspondence": "Signature.can_assign vs protocol method compatibility (incompatible_argument)", **pr_bad[0]}, no_failing_input=True)
+    if ca_corr and not found:
+        rep.violation({"kind": "broken-correspondence", "correspondence": "SigAssign.sca with n unnamed positional-only parameters vs CallableValue from Callable[[...], R]", **ca_corr[0]}, no_failing_input=True)
+    if ca_e2e_bad and not found:
+        rep.violation({"kind": "broken-correspondence", "correspondence": "Callable[...] annotation: type_from_runtime route vs module diagnostics", **ca_e2e_bad[0]}, no_failing_input=True)
+    if hier_corr and not found:
+        rep.violation({"kind": "broken-correspondence", "correspondence": "override check on class hierarchies (incompatible_override) vs Signature.can_assign against every definition in the MRO", **hier_corr[0]}, no_failing_input=True)
+    if ov2_corr and not found:
+        rep.violation({"kind": "broken-correspondence", "correspondence": "SigAssign.ov_kinds_ok (forall expected overload exists actual overload) vs can_assign on OverloadedSignature", **ov2_corr[0]}, no_failing_input=True)
     if broken_translation and not found:
         rep.violation({"kind": "broken-obligation", "theorem": "Gen/Kinds.v, Gen/BinderShape.v (translators harness/translate/kinds.py, binder.py)", "detail": broken_translation}, no_failing_input=True)
     if proof is not None and not proof.ok and not found:
@@ -497,7 +872,7 @@ def run(tier: str, replay: str | None = None):
         rep.harness_error("specification PyBind.py_bind disagrees with CPython on " + json.dumps(sb))
 
     rep.coverage.update(
-        evaluations=len(pairs) + len(typed) + n_spec + n_ep + n_ov,
+        evaluations=len(pairs) + len(typed) + n_spec + n_ep + n_ov + n_pr + n_ca + n_ca_e2e + n_ov2 + n_hier,
         distinct_nontrivial=len(distinct),
         rule="a case = (expected signature e, actual signature a): every def-expressible e with <=2 parameters x a sample (thorough: all) of the <=2-parameter signatures over names {a,b,c}; "
         "random e with <=5 parameters paired with an independent random a (1/4) or an edit of e (kind change, default flip, added optional/*args/**kwargs, dropped, renamed or swapped parameter); "
@@ -515,6 +890,24 @@ def run(tier: str, replay: str | None = None):
         entry_point_mismatches=len(ep_bad),
         overrides_checked=n_ov,
         overrides_rejected=n_ov_rej,
+        protocols_checked=n_pr,
+        protocols_rejected=n_pr_rej,
+        protocol_mismatches=len(pr_bad),
+        protocol_other_codes=pr_other,
+        callable_annotation_pairs=n_ca,
+        callable_annotation_accepted=n_ca_acc,
+        callable_annotation_mismatches=len(ca_corr),
+        callable_ellipsis_checked=n_ellipsis,
+        callable_annotation_modules=n_ca_e2e,
+        callable_annotation_module_mismatches=len(ca_e2e_bad),
+        callable_annotation_other_codes=ca_other,
+        hierarchies_checked=n_hier,
+        hierarchy_shapes=hier_hist,
+        hierarchy_mismatches=len(hier_corr),
+        hierarchy_other_codes=hier_other,
+        overload_groups=n_ov2,
+        overload_groups_accepted=n_ov2_acc,
+        overload_mismatches=len(ov2_corr),
         override_mismatches=len(ov_bad),
         override_other_codes=ov_other,
         exhaustive=False,
